@@ -137,8 +137,7 @@ void h_best(void)
 
 BODY_RULES = [
     X.drop_trace,
-    X.Rule('vector<const definition*> local', r'\bstd::vector<const definition\*>\s+(\w+)\s*;',
-           r'vec_defp \1; \1.n = 0;', 1, 1),
+    X.vector_locals(r'const\s+definition\s*\*', 'vec_defp', 1),
     X.Rule('range-for over candidates',
            r'for\s*\(\s*auto\s+(\w+)\s*:\s*(\w+)\s*\)\s*\{',
            r'for (size_t yv_i_\1 = 0; yv_i_\1 < \2.n; ++yv_i_\1) { __auto_type \1 = \2.data[yv_i_\1];'),
